@@ -27,6 +27,7 @@ import (
 	"context"
 	"fmt"
 	"os"
+	"sync"
 )
 
 func (v *loggerPlus) Println(ctx Context, a ...interface{}) {
@@ -68,8 +69,14 @@ var cidKey key = "cid.logger.ossrs.org"
 
 var gCid int = 999
 
+// To protect the gCid, for WithContext maybe called by multiple goroutines.
+var gCidLock sync.Mutex
+
 // Create context with value.
 func WithContext(ctx context.Context) context.Context {
+	gCidLock.Lock()
+	defer gCidLock.Unlock()
+
 	gCid += 1
 	return context.WithValue(ctx, cidKey, gCid)
 }
